@@ -236,10 +236,14 @@ func createPromise(tags map[string]string, promiseCmd *t_aio.CreatePromiseComman
 		})
 
 		if err != nil {
+			// without the router's answer we cannot know whether the promise
+			// needs a task, creating it alone could leave a routed promise
+			// without its task
 			slog.Warn("failed to match promise", "cmd", promiseCmd, "err", err)
+			return nil, t_api.NewError(t_api.StatusAIOMatchError, err)
 		}
 
-		if taskCmd != nil && (err != nil || !completion.Router.Matched) {
+		if taskCmd != nil && !completion.Router.Matched {
 			slog.Error("failed to match promise with router when creating a task", "cmd", promiseCmd)
 			return nil, t_api.NewError(t_api.StatusPromiseRecvNotFound, err)
 		}
@@ -249,7 +253,7 @@ func createPromise(tags map[string]string, promiseCmd *t_aio.CreatePromiseComman
 			CreatePromise: promiseCmd,
 		}
 
-		if err == nil && completion.Router.Matched {
+		if completion.Router.Matched {
 			util.Assert(completion.Router.Recv != nil, "recv must not be nil")
 
 			// If there is a taskCmd just update the Recv otherwise create a tasks for the match
